@@ -3,12 +3,12 @@ import hashlib
 import json
 import os
 
-from . import kernels
+from . import kernels, kernels_group, tables
 
 
 def run(repo, outdir):
     report = {'failed': {}, 'parts': {}}
-    for name, mod in (('kernels', kernels),):
+    for name, mod in (('kernels', kernels), ('kernels_group', kernels_group), ('tables', tables)):
         r = mod.extract(repo, outdir)
         report['parts'][name] = r
         for k, v in r.get('failed', {}).items():
